@@ -777,7 +777,10 @@ def run(ck: Check):
     ck.run_gen("translate")
     ck.prove(exes=["drv_C21"])
     ck.partial.append("PARTIAL: only the per-instruction translation (INSTRUCTION_SET/Op), CONDS and the Writer's expression and "
-                      "in-place assignment forms are proved; register propagation, dead-code elimination, variable splitting and typing, "
+                      "in-place assignment forms are proved; register propagation is modelled for one basic block only (constants, unary/cast, "
+                      "binary and one-argument static invoke assignments, a final return; tied to the real pass by correspondence) and "
+                      "refuted on the witness of propagation-past-redefinition; propagation across branches and loops, dead-code "
+                      "elimination, variable splitting and typing, "
                       "loop/if/switch structuring and the statement writer are covered by differential execution only")
     ck.rule = ("instruction samples: every opcode of the subset x literals (boundaries + random) x register contents (boundaries + "
                "random); methods: random well-typed static methods at three levels (straight-line / one level of control flow / nested "
